@@ -381,6 +381,47 @@ impl<'a> Rw<'a> {
         Some(out)
     }
 
+    /// N17: `M.entry(K).or_insert(V);` / `M.entry(K).or_insert_with(|| E);` as a statement whose result is discarded is, by the
+    /// definition of the entry API, "insert unless the key is present" (`V` is evaluated in any case, `E` only when the key is
+    /// absent; `K` once).  Verus has no model of `Entry` (it would have to return `&mut V`).
+    fn expand_entry_stmt(&mut self, s: &Stmt) -> Option<Stmt> {
+        let Stmt::Expr(Expr::MethodCall(outer), Some(_)) = s else { return None };
+        let m = outer.method.to_string();
+        if !(m == "or_insert" || m == "or_insert_with") || outer.args.len() != 1 {
+            return None;
+        }
+        let Expr::MethodCall(inner) = &*outer.receiver else { return None };
+        if inner.method != "entry" || inner.args.len() != 1 {
+            return None;
+        }
+        let recv = &inner.receiver;
+        let k = inner.args.first().unwrap();
+        let a = outer.args.first().unwrap();
+        self.log.push(format!("N17 {}.entry(..).{}(..); -> insert unless the key is present", recv.to_token_stream(), m));
+        if m == "or_insert" {
+            Some(parse_quote!({
+                let vp_ek = #k;
+                let vp_ev = #a;
+                if !#recv.contains_key(&vp_ek) {
+                    #recv.insert(vp_ek, vp_ev);
+                }
+            };))
+        } else {
+            let Expr::Closure(c) = a else { return None };
+            if !c.inputs.is_empty() {
+                return None;
+            }
+            let body = &c.body;
+            Some(parse_quote!({
+                let vp_ek = #k;
+                if !#recv.contains_key(&vp_ek) {
+                    let vp_ev = #body;
+                    #recv.insert(vp_ek, vp_ev);
+                }
+            };))
+        }
+    }
+
     fn lit_path(&mut self, bytes: Vec<u8>, why: &str) -> Expr {
         let name = lit_const_name(&bytes);
         self.log.push(format!("N4 literal {:?} -> crate::code::{} ({})", String::from_utf8_lossy(&bytes), name, why));
@@ -901,6 +942,8 @@ impl<'a> VisitMut for Rw<'a> {
                 // N16: `let [a, b, .., y, z] = E;` (identifiers, `_`, at most one `..`) -> one indexing `let` per binding
                 if let Some(mut expanded) = self.expand_slice_let(&s) {
                     out.append(&mut expanded);
+                } else if let Some(ns) = self.expand_entry_stmt(&s) {
+                    out.push(ns);
                 } else {
                     out.push(s);
                 }
